@@ -1,5 +1,6 @@
 (* Property C19 - statements only.  Every theorem is closed by [exact] of a lemma from
-   Proofs/MergeChan_thms.v; the statements are pinned again in /verif/pins/C19.v.
+   Proofs/*.v (four of them - C19_merge_never_clears, C19_responses_hom, C19_refresh_answered_once,
+   C19_loop_inv - by a two-line script that only repackages such lemmas); the statements are pinned again in /verif/pins/C19.v.
 
    System (Model/MergeChan.v): the merge channel's shared state, the sender's and the
    receiver's programs cut into their atomic actions, and tokio's Notify restricted to one
@@ -182,8 +183,15 @@ Theorem C19_loop_inv : forall s, reachable wstep w_init s ->
   w_refresh_answered s ++ applying_responses s ++ responses_slot (w_slot s) = w_refresh_requested s.
 Proof. intros s H. destruct (winv_reachable s H) as [A B]. split; assumption. Qed.
 
-(* no deadlock: while anything is owed a worker/task step is enabled, every such step strictly
-   decreases what is owed, and when nothing is owed every request has been answered exactly once *)
+(* The model is NOT extracted and NOT compared with the code (a census in checks/c19.py pins the
+   select! arms and the awaits it is written from).  LFinishApply and LTaskDone are always
+   enabled: that the awaits inside apply_metadata_update (pool initialisation) and inside a
+   use_keyspace task terminate is an ASSUMPTION built into the labels, so C19_loop_enabled holds in
+   every state by construction.  What the next four theorems add: every worker/task step
+   strictly decreases what is owed; when nothing is owed everything has been answered; and
+   (C19_loop_eventually) from every reachable state at most [owed s] worker/task steps - with no
+   new request arriving meanwhile - answer every request made so far.  Environment steps
+   (LReqUse, LMerge) increase [owed]; there is no fairness theorem. *)
 Theorem C19_loop_enabled : forall s, (0 < owed s)%nat ->
   exists lb s', is_worker_label lb = true /\ wstep s lb = Some s'.
 Proof. exact worker_enabled. Qed.
@@ -194,6 +202,11 @@ Theorem C19_loop_all_answered : forall s, reachable wstep w_init s -> owed s = O
   Permutation (w_use_answered s) (w_use_requested s) /\ w_refresh_answered s = w_refresh_requested s.
 Proof. exact all_answered. Qed.
 
+Theorem C19_loop_eventually : forall s, reachable wstep w_init s ->
+  exists ls s', forallb is_worker_label ls = true /\ run wstep s ls = Some s' /\ (List.length ls <= owed s)%nat /\
+    Permutation (w_use_answered s') (w_use_requested s) /\ w_refresh_answered s' = w_refresh_requested s.
+Proof. exact loop_eventually. Qed.
+
 (* non-vacuity *)
 (* requests of both kinds queue up while an update is applied and are all answered afterwards *)
 Example C19_ex_loop :
@@ -202,6 +215,9 @@ Example C19_ex_loop :
                        LMerge MTopology; LMerge (MFull true true); LFinishApply; LSelectUse; LSelectUse;
                        LSelectUpdate; LTaskDone 8; LFinishApply; LTaskDone 7])
   = Some ([8; 7], [1; 2; 4], Some 4, Some 8, O) /\
+  (* environment steps only: nothing is answered and the owed work grows *)
+  option_map (fun s => (owed s, w_use_answered s, w_refresh_answered s))
+    (run wstep w_init [LReqUse 1; LMerge (MFull true false); LReqUse 2; LMerge (MFull true false); LReqUse 3]) = Some (8%nat, [], []) /\
   run wstep w_init [LSelectUse] = None /\ run wstep w_init [LMerge MTake] = None /\
   run wstep w_init [LReqUse 1; LSelectUse; LTaskDone 2] = None.
 Proof. repeat split; vm_compute; reflexivity. Qed.
@@ -302,3 +318,4 @@ Print Assumptions C19_loop_inv.
 Print Assumptions C19_loop_enabled.
 Print Assumptions C19_loop_decreases.
 Print Assumptions C19_loop_all_answered.
+Print Assumptions C19_loop_eventually.
